@@ -176,17 +176,25 @@ Proof.
   induction vp as [|[v c] t IH]; [reflexivity|]. cbn [map fst snd]. rewrite map2_cons, IH. reflexivity.
 Qed.
 
-(* counts[valued] * (values[valued] - mean) ** 2, summed, over sum(counts[valued]); np.sqrt *)
+(* counts[valued] * (values[valued] - mean) ** 2, summed, over sum(counts[valued]) *)
+Lemma row_var_cell_raw vals c mu : List.length c = List.length vals ->
+  xdiv (nansum (map2 xmul (mask_take c (map negb (map is_nan vals)))
+                          (map xsq (map (fun a => xsub a mu)
+                                        (mask_take vals (map negb (map is_nan vals)))))))
+       (xsum (mask_take c (map negb (map is_nan vals))))
+  = scale_var c vals mu.
+Proof.
+  intros H. rewrite (mask_take_vals_fst vals c H), (mask_take_counts_snd vals c H).
+  rewrite var_numerator_pairs. reflexivity.
+Qed.
+(* .. and np.sqrt *)
 Lemma row_var_cell vals c mu : List.length c = List.length vals ->
   root_arg (xdiv (nansum (map2 xmul (mask_take c (map negb (map is_nan vals)))
                                 (map xsq (map (fun a => xsub a mu)
                                               (mask_take vals (map negb (map is_nan vals)))))))
                  (xsum (mask_take c (map negb (map is_nan vals)))))
   = sqrt_arg (scale_var c vals mu).
-Proof.
-  intros H. rewrite (mask_take_vals_fst vals c H), (mask_take_counts_snd vals c H).
-  rewrite var_numerator_pairs. reflexivity.
-Qed.
+Proof. intros H. rewrite row_var_cell_raw by exact H. reflexivity. Qed.
 
 Lemma repeat_S {A} (x : A) n : repeat x (S n) = x :: repeat x n.
 Proof. reflexivity. Qed.
@@ -271,6 +279,37 @@ Proof.
   change (nth j (map2 g (repeat x n) means) d = g x (vnth means j)). apply IH; lia.
 Qed.
 
+Lemma cols_var_list_raw nc vals C means :
+  wf_mat nc C -> List.length vals = List.length C -> List.length means = nc ->
+      (map2 xdiv
+         (map nansum
+            (cols_of nc
+               (map2 (map2 xmul) (mask_take C (map negb (map is_nan vals)))
+                  (cols_of (List.length (mask_take vals (map negb (map is_nan vals))))
+                     (map (map xsq)
+                        (map2 (fun (r : list xq) (u : xq) => map (fun a => xsub a u) r)
+                              (repeat (mask_take vals (map negb (map is_nan vals))) nc) means))))))
+         (map xsum (cols_of nc (mask_take C (map negb (map is_nan vals))))))
+  = tab nc (fun j => scale_var (mcol C j) vals (vnth means j)).
+Proof.
+  intros HC Hv Hm.
+  set (M := map negb (map is_nan vals)). set (vals' := mask_take vals M).
+  set (SQ := map (map xsq) (map2 (fun (r : list xq) (u : xq) => map (fun a => xsub a u) r) (repeat vals' nc) means)).
+  assert (HSQlen : List.length SQ = nc) by (unfold SQ; vnorm; lia).
+  assert (HSQ : wf_mat (List.length vals') SQ).
+  { apply Forall_forall. intros r Hr. unfold SQ in Hr. apply in_map_iff in Hr. destruct Hr as [r' [<- Hr']].
+    apply in_map2 in Hr'. destruct Hr' as [x [u [Hx [_ ->]]]]. apply repeat_spec in Hx. subst x. vnorm. reflexivity. }
+  unfold cols_of at 1 3. rewrite !map_tab, map2_tab. apply tab_ext_lt. intros j Hj.
+  rewrite (mcol_map2 xmul nc).
+  - rewrite mcol_mask_take. rewrite mcol_cols_of by (try exact HSQ; lia).
+    unfold SQ. rewrite (map_nth (map xsq) _ [] j : nth j (map (map xsq) _) (map xsq []) = _).
+    rewrite nth_map2_repeat by lia.
+    apply row_var_cell_raw. rewrite mcol_length. lia.
+  - apply wf_mat_mask_take. exact HC.
+  - apply Forall_forall. intros r Hr. apply in_cols_of in Hr. destruct Hr as [i [_ ->]]. rewrite mcol_length. exact HSQlen.
+  - exact Hj.
+Qed.
+
 Lemma cols_var_list nc vals C means :
   wf_mat nc C -> List.length vals = List.length C -> List.length means = nc ->
   map root_arg
@@ -284,21 +323,4 @@ Lemma cols_var_list nc vals C means :
                               (repeat (mask_take vals (map negb (map is_nan vals))) nc) means))))))
          (map xsum (cols_of nc (mask_take C (map negb (map is_nan vals))))))
   = tab nc (fun j => sqrt_arg (scale_var (mcol C j) vals (vnth means j))).
-Proof.
-  intros HC Hv Hm.
-  set (M := map negb (map is_nan vals)). set (vals' := mask_take vals M).
-  set (SQ := map (map xsq) (map2 (fun (r : list xq) (u : xq) => map (fun a => xsub a u) r) (repeat vals' nc) means)).
-  assert (HSQlen : List.length SQ = nc) by (unfold SQ; vnorm; lia).
-  assert (HSQ : wf_mat (List.length vals') SQ).
-  { apply Forall_forall. intros r Hr. unfold SQ in Hr. apply in_map_iff in Hr. destruct Hr as [r' [<- Hr']].
-    apply in_map2 in Hr'. destruct Hr' as [x [u [Hx [_ ->]]]]. apply repeat_spec in Hx. subst x. vnorm. reflexivity. }
-  unfold cols_of at 1 3. rewrite !map_tab, map2_tab, map_tab. apply tab_ext_lt. intros j Hj.
-  rewrite (mcol_map2 xmul nc).
-  - rewrite mcol_mask_take. rewrite mcol_cols_of by (try exact HSQ; lia).
-    unfold SQ. rewrite (map_nth (map xsq) _ [] j : nth j (map (map xsq) _) (map xsq []) = _).
-    rewrite nth_map2_repeat by lia.
-    apply row_var_cell. rewrite mcol_length. lia.
-  - apply wf_mat_mask_take. exact HC.
-  - apply Forall_forall. intros r Hr. apply in_cols_of in Hr. destruct Hr as [i [_ ->]]. rewrite mcol_length. exact HSQlen.
-  - exact Hj.
-Qed.
+Proof. intros HC Hv Hm. rewrite (cols_var_list_raw nc vals C means HC Hv Hm), map_tab. reflexivity. Qed.
